@@ -529,6 +529,22 @@ pub fn run(ctx: &mut Ctx) -> (&'static str, String, bool) {
                 via_disk(Fmt::Smx, &b[..cut], "s", "a file cut inside its first bytes", &mut p);
             }
         }
+        // files well beyond 1 MiB (real tracks are several MiB): 30 000 PTH nodes; one SMX object with 70 000 points
+        {
+            let mut big = gen_pth(&mut r, 0);
+            big.nodes = (0..30_000).map(|_| gen_pth(&mut r, 1).nodes.pop().unwrap_or_default()).collect();
+            let b = ref_pth_bytes(&big);
+            via_disk(Fmt::Pth, &b, "big", "a 1.2 MB file", &mut p);
+            let mut smx = gen_smx(&mut r, 0, 0, 0, 2);
+            smx.objects = vec![Object {
+                center: Point { x: 1, y: -2, z: 3 },
+                radius: 77,
+                points: (0..70_000i32).map(|i| ObjectPoint { xyz: Point { x: i, y: -i, z: i ^ 0x55 }, colour: Argb { a: 255, rgb: Rgb { r: i as u8, g: (i >> 8) as u8, b: 7 } } }).collect(),
+                triangles: (0..300u16).map(|i| Triangle { a: i, b: i + 1, c: i + 2 }).collect(),
+            }];
+            let b = ref_smx_bytes(&smx);
+            via_disk(Fmt::Smx, &b, "big", "a 1.1 MB file", &mut p);
+        }
         for (fmt, ext) in [(Fmt::Pth, "pth"), (Fmt::Smx, "smx")] {
             let missing = dir.join(format!("does-not-exist.{ext}"));
             let got = guarded(|| match fmt {
